@@ -82,6 +82,8 @@ pub struct State {
     pub faults_fired: Vec<(usize, String, K, PathBuf)>,
     gates: Vec<GateState>,
     pub fired_by_kind_thread: BTreeMap<String, usize>,
+    /// writers accept at most that many bytes per `write` call (0 = everything): short writes, as `Write` allows
+    pub write_limit: usize,
 }
 
 #[derive(Clone)]
@@ -178,6 +180,9 @@ impl SimDir {
     }
     pub fn faults_fired(&self) -> usize {
         self.st.lock().unwrap().faults_fired.len()
+    }
+    pub fn set_write_limit(&self, limit: usize) {
+        self.st.lock().unwrap().write_limit = limit;
     }
     pub fn add_gate(&self, spec: GateSpec) -> usize {
         let mut st = self.st.lock().unwrap();
@@ -315,6 +320,8 @@ impl SimWriter {
 }
 impl Write for SimWriter {
     fn write(&mut self, buf: &[u8]) -> io::Result<usize> {
+        let limit = self.dir.st.lock().unwrap().write_limit;
+        let buf = if limit > 0 && buf.len() > limit { &buf[..limit] } else { buf };
         self.dir.op(K::Append, &self.path, Some(buf))?;
         self.data.extend_from_slice(buf);
         Ok(buf.len())
